@@ -480,7 +480,7 @@ def stack_cases(ctx, exe, d):
                           observed=c, model=m, replay="echo '%s' | LD_LIBRARY_PATH=%s %s" % (q, d, emb))
         elif not ok_m:
             _broken_once(ctx, "correspondence:stack-copy", "StackModel differs from vm.c (C agrees with the oracle): %s model=%s impl=%s" % (q, m, c))
-    ctx.sample(dict(kind="stack-copy", request=reqs_c[-1], model=mo[-1], impl=co[len(reqs_c) - 1], allocated=n_alloc))
+    ctx.sample(dict(kind="stack-copy", request=reqs_c[0][:300], model=mo[0][:300], impl=co[0][:300], allocated=n_alloc))
 
 
 # ------------------------------------------------------------------------------------------------ escapes through C callbacks
